@@ -161,11 +161,22 @@ Theorem liveness_pool_failure_blocks : forall i : lv_in, nth_pool i O <> HProcee
 Proof. exact liveness_pool_failure_blocks_l. Qed.
 Print Assumptions liveness_pool_failure_blocks.
 
-(* one reconcile issues at most two Deletes, and a second one only if both timeouts have elapsed *)
-Theorem liveness_two_deletes : forall i : lv_in, (fst (liveness i) <= 2)%nat /\
-  (fst (liveness i) = 2%nat -> launch_timed_out i = true /\ reg_timed_out i = true).
-Proof. exact liveness_two_deletes_l. Qed.
-Print Assumptions liveness_two_deletes.
+(* one reconcile issues at most one Delete (since 3cbc43e89 the launch-timeout branch returns) *)
+Theorem liveness_at_most_one_delete : forall i : lv_in, (fst (liveness i) <= 1)%nat.
+Proof. exact liveness_at_most_one_delete_l. Qed.
+Print Assumptions liveness_at_most_one_delete.
+
+(* the code before 3cbc43e89 fell through to the registration timeout: a second Delete (and a second
+   recorded failure) in the same reconcile when both timeouts had elapsed; its Deletes were still
+   justified, and it agrees with the fixed code unless the registration timeout has elapsed too *)
+Theorem prefix_liveness_at_most_one_delete_refuted : exists i : lv_in, fst (liveness_prefix i) = 2%nat.
+Proof. exact liveness_prefix_double_delete_l. Qed.
+Print Assumptions prefix_liveness_at_most_one_delete_refuted.
+
+Theorem prefix_liveness_at_most_one_delete_partial : forall i : lv_in,
+  reg_timed_out i = false -> fst (liveness_prefix i) = fst (liveness i).
+Proof. exact liveness_prefix_partial_l. Qed.
+Print Assumptions prefix_liveness_at_most_one_delete_partial.
 
 (* ---------------------------------------------------------------- node repair *)
 
@@ -286,11 +297,12 @@ Example gc_two_reads_example :
   gc2_holds_b ProviderFirst w_before w_after [mkGNode "p1" false] [] ["fresh"] = false.
 Proof. vm_compute. repeat split; reflexivity. Qed.
 
-(* liveness: launch timeout elapsed exactly => one Delete; registration pending afterwards *)
+(* liveness: launch timeout elapsed exactly => one Delete and the reconcile ends; registration timeout with Launched = True *)
 Example liveness_at_boundary :
-  liveness (mkLv (Some (CUnknown, 0)) (Some (CUnknown, 0)) launch_timeout [(Some AOk, None)] [AOk]) = (1%nat, RAfter (600 * sec)) /\
+  liveness (mkLv (Some (CUnknown, 0)) (Some (CUnknown, 0)) launch_timeout [(Some AOk, None)] [AOk]) = (1%nat, ROk) /\
   liveness (mkLv (Some (CUnknown, 0)) (Some (CUnknown, 0)) (launch_timeout - 1) [] []) = (O, RAfter 1) /\
-  liveness (mkLv (Some (CUnknown, 0)) (Some (CFalse, 0)) reg_timeout [(Some AOk, None); (Some AOk, None)] [AOk; AOk]) = (2%nat, ROk) /\
+  liveness (mkLv (Some (CUnknown, 0)) (Some (CFalse, 0)) reg_timeout [(Some AOk, None); (Some AOk, None)] [AOk; AOk]) = (1%nat, ROk) /\
+  liveness (mkLv (Some (CUnknown, 0)) (Some (CTrue, 0)) reg_timeout [(Some AOk, None)] [AOk]) = (1%nat, ROk) /\
   liveness (mkLv (Some (CUnknown, 0)) (Some (CFalse, 0)) reg_timeout [(Some AErr, None)] []) = (O, RErr).
 Proof. vm_compute. repeat split; reflexivity. Qed.
 
